@@ -16,5 +16,5 @@ else
   git -C "$WT" apply "$PATCH" || { echo "patch does not apply"; exit 3; }
 fi
 (cd "$WT" && GOFLAGS=-mod=mod GOPROXY=off go build ./... ) || { echo "mutant does not compile"; exit 3; }
-VERIF_REPO="$WT" /verif/bin/simcheck -property "$PROP" -tier quick -budget "$BUDGET" 2>&1 | grep -v "^Flag --" | tail -15
+VERIF_REPO="$WT" /verif/bin/simcheck -property "$PROP" -tier quick -budget "$BUDGET" 2>&1 | grep -v "^Flag --" | tail -40
 echo "exit=${PIPESTATUS[0]}"
